@@ -1,4 +1,151 @@
-// engine K harnesses for module hook 'accumulator' (included under cfg(kani) by /repo)
+// engine K — ff/accumulator.rs (property C08: deferred-reduction accumulators agree with the field operations)
+//
+// Abstract value of an `Accumulator<Fp61BitPrime, u128, 64>`:  abs(acc) = acc.value mod P.
+// Representation invariant:  inv(acc) <=> count < 64  &&  value <= (P-1) + count*(P-1)^2
+// (so that the next product can be added without overflowing u128).
+use super::*;
+use crate::ff::{Fp32BitPrime, Fp61BitPrime, PrimeField};
+
+const P: u128 = Fp61BitPrime::PRIME as u128;
+const INTERVAL: usize = 64;
+type Acc = Accumulator<Fp61BitPrime, u128, INTERVAL>;
+type AccArr2 = Accumulator<Fp61BitPrime, [u128; 2], INTERVAL>;
+
+fn bound(count: usize) -> u128 {
+    (P - 1) + (count as u128) * (P - 1) * (P - 1)
+}
+fn inv(a: &Acc) -> bool {
+    a.count < INTERVAL && a.value <= bound(a.count)
+}
+fn any_acc() -> Acc {
+    let a = Acc { value: kani::any(), count: kani::any(), phantom_data: PhantomData };
+    kani::assume(inv(&a));
+    a
+}
+
+/// the type-level choice of REDUCE_INTERVAL is the one the invariant is stated for, and the worst case fits in u128
+#[kani::proof]
+fn c08_acc_constants() {
+    kani::cover!(true);
+    let a: <Fp61BitPrime as MultiplyAccumulate>::Accumulator = MultiplyAccumulator::new();
+    let _same_type: &Acc = &a;
+    assert!(inv(&a) && a.value == 0);
+    // 64 products on top of one field element never overflow: checked arithmetic below must not panic
+    let worst = (INTERVAL as u128).checked_mul((P - 1) * (P - 1)).and_then(|x| x.checked_add(P - 1));
+    assert!(worst.is_some());
+    let f: Fp61BitPrime = kani::any();
+    let from = Acc::from(f);
+    assert!(inv(&from) && from.value == f.as_u128());
+}
+
+/// bound unit: one step preserves the invariant and the u128 arithmetic in `+=`/`*` cannot overflow
+/// (overflow checks are Kani's implicit obligations inside multiply_accumulate).
+#[kani::proof]
+#[kani::stub_verified(Fp61BitPrime::modulo_prime_u128)]
+fn c08_acc_step_bound() {
+    let mut acc = any_acc();
+    let a: Fp61BitPrime = kani::any();
+    let b: Fp61BitPrime = kani::any();
+    kani::cover!(acc.count == INTERVAL - 1);
+    kani::cover!(acc.count == 0);
+    acc.multiply_accumulate(a, b);
+    assert!(inv(&acc));
+}
+
+// The units below state *which* integer is handed to the reduction and that its result is what is stored /
+// returned, by comparing with the real `truncate_from` applied to the specification integer. That
+// `truncate_from(x)` is the canonical element `x mod P` for every u128 is the callee's own proved contract
+// (units c08_fp61_reduce_u128_contract, c08_fp61_truncate_from_any) -- the modular step: caller against callee.
+// (`kani::stub` cannot replace a function that carries a contract, and `stub_verified` re-introduces a
+//  128-bit `%` that costs minutes per harness; both measured.)
+fn red(x: u128) -> u128 {
+    Fp61BitPrime::truncate_from(x).as_u128()
+}
+
+/// value unit: value' = value + a*b exactly (count+1 < 64), or the reduction *of exactly that integer*
+/// when the interval is reached, and then count' = 0
+#[kani::proof]
+#[kani::solver(z3)]
+fn c08_acc_step_value() {
+    let mut acc = any_acc();
+    let (v0, c0) = (acc.value, acc.count);
+    let a: Fp61BitPrime = kani::any();
+    let b: Fp61BitPrime = kani::any();
+    kani::cover!(c0 == INTERVAL - 1);
+    kani::cover!(c0 < INTERVAL - 1);
+    acc.multiply_accumulate(a, b);
+    let sum = v0 + a.as_u128() * b.as_u128();
+    if c0 + 1 < INTERVAL {
+        assert!(acc.count == c0 + 1);
+        assert!(acc.value == sum);
+    } else {
+        assert!(acc.count == 0);
+        assert!(acc.value == red(sum));
+    }
+}
+
+/// take() returns the reduction of exactly `value`
+#[kani::proof]
+#[kani::solver(z3)]
+fn c08_acc_take() {
+    let acc = any_acc();
+    let v0 = acc.value;
+    kani::cover!(v0 >= P);
+    let r = acc.take();
+    assert!(r.as_u128() == red(v0));
+}
+
+/// array accumulator, N = 2: every lane behaves as the scalar accumulator
+#[kani::proof]
+#[kani::unwind(3)]
+#[kani::solver(z3)]
+fn c08_acc_array2_step() {
+    let mut acc = AccArr2 { value: kani::any(), count: kani::any(), phantom_data: PhantomData };
+    kani::assume(acc.count < INTERVAL && acc.value[0] <= bound(acc.count) && acc.value[1] <= bound(acc.count));
+    let (v0, c0) = (acc.value, acc.count);
+    let a: [Fp61BitPrime; 2] = [kani::any(), kani::any()];
+    let b: [Fp61BitPrime; 2] = [kani::any(), kani::any()];
+    kani::cover!(c0 == INTERVAL - 1);
+    kani::cover!(c0 < INTERVAL - 1);
+    MultiplyAccumulatorArray::multiply_accumulate(&mut acc, &a, &b);
+    let s0 = v0[0] + a[0].as_u128() * b[0].as_u128();
+    let s1 = v0[1] + a[1].as_u128() * b[1].as_u128();
+    if c0 + 1 < INTERVAL {
+        assert!(acc.count == c0 + 1 && acc.value[0] == s0 && acc.value[1] == s1);
+        assert!(acc.value[0] <= bound(acc.count) && acc.value[1] <= bound(acc.count));
+    } else {
+        assert!(acc.count == 0 && acc.value[0] == red(s0) && acc.value[1] == red(s1));
+    }
+}
+
+/// array take(), N = 2: lane i is the reduction of exactly value[i]
+#[kani::proof]
+#[kani::unwind(3)]
+#[kani::solver(z3)]
+fn c08_acc_array2_take() {
+    let acc = AccArr2 { value: kani::any(), count: kani::any(), phantom_data: PhantomData };
+    let v0 = acc.value;
+    kani::cover!(true);
+    let out = MultiplyAccumulatorArray::take(acc);
+    assert!(out[0].as_u128() == red(v0[0]) && out[1].as_u128() == red(v0[1]));
+}
+
+/// generic (reduce-every-step) accumulator, instance Fp32BitPrime: acc' = acc + a*b with the field's own operators
+/// (whose contracts are units c08_fp32_add_contract / c08_fp32_mul_contract)
+#[kani::proof]
+#[kani::solver(z3)]
+fn c08_acc_generic_fp32() {
+    let mut acc: Fp32BitPrime = kani::any();
+    let v0 = acc;
+    let a: Fp32BitPrime = kani::any();
+    let b: Fp32BitPrime = kani::any();
+    kani::cover!(true);
+    let z: Fp32BitPrime = MultiplyAccumulator::new();
+    assert!(z.as_u128() == 0);
+    acc.multiply_accumulate(a, b);
+    assert!(acc == v0 + a * b);
+    assert!(MultiplyAccumulator::take(acc) == acc);
+}
 
 #[cfg(test)]
 include!(concat!(env!("IPA_VERIF_DIR"), "/.build/playback/accumulator.rs"));
